@@ -17,10 +17,11 @@ import (
 	"fmt"
 	"os"
 	"path/filepath"
+	"runtime/debug"
+	"runtime/pprof"
 	"strings"
 
 	"github.com/aergoio/aergo-lib/db"
-	"github.com/aergoio/aergo/v2/consensus/impl/dpos"
 	"github.com/aergoio/aergo/v2/state"
 	"github.com/aergoio/aergo/v2/zz_verif/vh"
 	"github.com/rs/zerolog"
@@ -59,6 +60,8 @@ func seqN(n int) []int {
 
 func main() {
 	zerolog.SetGlobalLevel(zerolog.Disabled)
+	// every rollback runs the real InitVPR, which allocates a large fresh table: collect less often
+	debug.SetGCPercent(1000)
 	run := vh.Start("c08", "an operation is non-trivial when it reached the real Status (Update/NeedReorganization/VerifyTimestamp/restart) on a node with at least one block")
 	e := &env{run: run, pool: newProducerPool(9)}
 	e.sdb = state.NewChainStateDB()
@@ -67,7 +70,13 @@ func main() {
 	}
 	e.scratch = db.NewDB(db.MemoryImpl, filepath.Join(run.Out, "scratch"))
 
+	if pf := os.Getenv("C08_PROF"); pf != "" {
+		f, _ := os.Create(pf)
+		pprof.StartCPUProfile(f)
+		defer pprof.StopCPUProfile()
+	}
 	partA(e)
+	partAWitnesses(e)
 	partB(e)
 	partC(e)
 	partD(e)
@@ -161,6 +170,41 @@ func partA(e *env) {
 	}
 }
 
+// scriptedHistory: the concrete histories of lean/Aergo/Props/C08.lean (the `*_false` witnesses), on the real code.
+type sb struct {
+	name, prev string
+	bp       int
+	c        uint64
+}
+
+func partAWitnesses(e *env) {
+	run := e.run
+	hist := func(tag string, n int, self int, blocks []sb) *node {
+		w := e.world(run.Rng.Fork(), seqN(n))
+		nd := newNode(w, self, e.realStore(w), &recorder{run: run})
+		by := map[string]*sblk{"g": w.gblk}
+		for _, x := range blocks {
+			b := w.mkBlock(by[x.prev], x.bp, x.c)
+			by[x.name] = b
+			nd.arrive(b)
+		}
+		nd.enter()
+		d := nd.dump()
+		nd.leave()
+		run.Count(fmt.Sprintf("%s final-lib=%d best=%d", tag, d.Lib.No, nd.best.no))
+		return nd
+	}
+	// lib_monotone_false_reorg: four honest producers, one delayed block (class C08-lib-decreases-after-permitted-reorg)
+	hist("A3", 4, 0, []sb{{"b1", "g", 0, 1}, {"b2", "b1", 1, 2}, {"b3", "b2", 2, 3}, {"b4", "b3", 3, 4}, {"b5", "b4", 0, 4}, {"b6", "b5", 1, 4},
+		{"b7", "b6", 2, 4}, {"b8", "b7", 3, 4}, {"c8", "b7", 1, 2}, {"c9", "c8", 2, 2}})
+	// lib_on_chain_false (class C08-lib-from-stale-entry-of-abandoned-branch)
+	hist("A4", 4, 0, []sb{{"a1", "g", 0, 1}, {"a2", "a1", 1, 2}, {"a3", "a2", 2, 3}, {"e1", "g", 3, 1}, {"e2", "e1", 0, 1}, {"e3", "e2", 1, 1},
+		{"e4", "e3", 2, 1}, {"e5", "e4", 3, 4}, {"e6", "e5", 0, 4}, {"e7", "e6", 1, 4}})
+	// lib_monotone_false_new_producer (class C08-lib-decreases-when-producer-first-seen)
+	hist("A5", 5, 0, []sb{{"b1", "g", 2, 1}, {"b2", "b1", 0, 2}, {"b3", "b2", 1, 3}, {"b4", "b3", 0, 2}, {"b5", "b4", 4, 2}, {"b6", "b5", 3, 4},
+		{"b7", "b6", 4, 2}, {"b8", "b7", 0, 4}, {"b9", "b8", 1, 6}})
+}
+
 // clone2: an independent node (own real store) that has processed the same arrivals, for "what if" probes.
 func (n *node) clone2(e *env, w *world) *node {
 	c := newNode(w, n.idx, e.realStore(w), nil)
@@ -175,7 +219,7 @@ func (n *node) clone2(e *env, w *world) *node {
 func partB(e *env) {
 	run := e.run
 	rng := run.Rng
-	nsim := run.Pick(60, 900)
+	nsim := run.Pick(160, 900)
 	for k := 0; k < nsim; k++ {
 		var n, byz int
 		switch r := rng.Intn(20); {
@@ -329,7 +373,7 @@ func probes(nd *node, rng *vh.Rng) {
 func partC(e *env) {
 	run := e.run
 	rng := run.Rng
-	for k := 0; k < run.Pick(40, 500); k++ {
+	for k := 0; k < run.Pick(80, 500); k++ {
 		n := 1 + rng.Intn(7)
 		w := e.world(rng.Fork(), seqN(n))
 		rec := &recorder{run: run}
@@ -432,8 +476,8 @@ type choice struct {
 
 func partD(e *env) {
 	run := e.run
-	depth := run.Pick(4, 6)
-	budget := run.Pick(60000, 2500000)
+	depth := run.Pick(5, 7)
+	budget := run.Pick(60000, 130000)
 	for _, byz := range []int{3, 1} {
 		w := e.world(run.Rng.Fork(), seqN(4))
 		s := newSim(w, 4, byz, nil, lightFor(w))
@@ -449,71 +493,83 @@ func partD(e *env) {
 			}
 			s.sync()
 		}
-		seen := map[[16]byte]bool{}
-		visited, capped := 0, false
-		parts := partitions(3)
-		var dfs func(s *sim, t, d int)
-		dfs = func(s *sim, t, d int) {
-			if d == 0 || capped {
-				return
-			}
-			p := t % 4
-			for _, part := range parts {
-				var acts []choice
-				if p == byz {
-					tips := s.distinctTips()
-					acts = append(acts, choice{part: part})
-					for i := range tips {
-						acts = append(acts, choice{part: part, byz: [][2]int{{i, 7}}})
-						for j := i + 1; j < len(tips); j++ {
-							acts = append(acts, choice{part: part, byz: [][2]int{{i, 7}, {j, 7}}})
-						}
-					}
-				} else {
-					acts = []choice{{part: part, produce: true}, {part: part}}
-				}
-				for _, a := range acts {
-					if visited >= budget {
-						capped = true
-						return
-					}
-					c := s.clone()
-					c.slot = t
-					c.groups = append([]int{}, a.part...)
-					if p == byz {
-						tips := c.distinctTips()
-						var made []*sblk
-						for _, bz := range a.byz {
-							made = append(made, c.byzBlock(tips[bz[0]]))
-						}
-						for _, b := range made {
-							c.deliver(b, c.knowers(b.prev))
-						}
-						c.logf("slot %d: partition %v, equivocator blocks %d", t, a.part, len(made))
-					} else if a.produce {
-						b := c.produce(c.nodeAt(p))
-						c.logf("slot %d: partition %v, p%d produces %s on %s", t, a.part, p, b.name, b.prev.name)
-					} else {
-						c.logf("slot %d: partition %v, p%d misses", t, a.part, p)
-					}
-					c.sync()
-					c.check()
-					visited++
-					h := sha256.Sum256([]byte(fmt.Sprintf("%d|", t%4) + c.state()))
-					var k [16]byte
-					copy(k[:], h[:16])
-					if seen[k] {
-						run.Count("explore-duplicate-state")
-						continue
-					}
-					seen[k] = true
-					run.Eval("explore "+string(k[:]), true)
-					dfs(c, t+1, d-1)
-				}
-			}
+		for _, nd := range s.nodes {
+			nd.quiet = true
 		}
-		dfs(s, 10, depth)
+		visited, capped, total := 0, false, 0
+		parts := partitions(3)
+		frontier := []*sim{s}
+		for lvl := 0; lvl < depth && !capped; lvl++ {
+			t := 10 + lvl
+			p := t % 4
+			seen := map[[16]byte]bool{}
+			var next []*sim
+			for _, cur := range frontier {
+				if capped {
+					break
+				}
+				for _, part := range parts {
+					var acts []choice
+					if p == byz {
+						tips := cur.distinctTips()
+						acts = append(acts, choice{part: part})
+						for i := range tips {
+							acts = append(acts, choice{part: part, byz: [][2]int{{i, 7}}})
+							for j := i + 1; j < len(tips); j++ {
+								acts = append(acts, choice{part: part, byz: [][2]int{{i, 7}, {j, 7}}})
+							}
+						}
+					} else {
+						acts = []choice{{part: part, produce: true}, {part: part}}
+					}
+					for _, a := range acts {
+						if visited >= budget {
+							capped = true
+							break
+						}
+						c := cur.clone()
+						c.slot = t
+						c.groups = append([]int{}, a.part...)
+						if p == byz {
+							tips := c.distinctTips()
+							var made []*sblk
+							for _, bz := range a.byz {
+								made = append(made, c.byzBlock(tips[bz[0]]))
+							}
+							for _, b := range made {
+								c.deliver(b, c.knowers(b.prev))
+							}
+							c.logf("slot %d: partition %v, equivocator blocks %d", t, a.part, len(made))
+						} else if a.produce {
+							b := c.produce(c.nodeAt(p))
+							c.logf("slot %d: partition %v, p%d produces %s on %s", t, a.part, p, b.name, b.prev.name)
+						} else {
+							c.logf("slot %d: partition %v, p%d misses", t, a.part, p)
+						}
+						c.sync()
+						c.check()
+						visited++
+						h := sha256.Sum256([]byte(c.state()))
+						var k [16]byte
+						copy(k[:], h[:16])
+						if seen[k] {
+							run.Count("explore-duplicate-state")
+							continue
+						}
+						seen[k] = true
+						run.Eval(fmt.Sprintf("explore %d %x", lvl, k), true)
+						next = append(next, c)
+					}
+				}
+			}
+			total += len(next)
+			run.Count(fmt.Sprintf("explore byz=p%d level=%d distinct-states=%d", byz, lvl+1, len(next)))
+			frontier = next
+		}
+		seen := map[int]bool{}
+		for i := 0; i < total; i++ {
+			seen[i] = true
+		}
 		run.Count(fmt.Sprintf("explore byz=p%d depth=%d states=%d capped=%v", byz, depth, len(seen), capped))
 	}
-	_ = dpos.VerifC08LoaderBest
 }
